@@ -254,6 +254,92 @@ fn run_plan(b: &[u8]) {
 
 /// Debug aid: run one string through each string entry point separately, timing each
 /// (each entry in its own child process when invoked as `msverif probe <file>`).
+/// Planner over descriptor shapes: fields = descriptor string, then one byte string
+/// [key mask lo, key mask hi, flags]; assets are built with the public builder API from the
+/// descriptor's own keys (bit i = key i is held), its hash leaves (flag 1 = all preimages held)
+/// and locks (flag 2 = absolute 500000100 / relative 0x400010 in time units, flag 4 = 100 / 16 in blocks).
+fn run_plan_shapes(b: &[u8]) {
+    use miniscript::{ForEachKey, Terminal};
+    let f = split_fields(b);
+    if f.len() < 2 || f[1].len() < 3 {
+        return;
+    }
+    let desc = match std::str::from_utf8(&f[0]).ok().and_then(|s| Descriptor::<DefiniteDescriptorKey>::from_str(s).ok()) {
+        Some(d) => d,
+        None => return,
+    };
+    let mask = f[1][0] as u16 | ((f[1][1] as u16) << 8);
+    let flags = f[1][2];
+    let mut keys: Vec<DescriptorPublicKey> = vec![];
+    desc.for_each_key(|k| {
+        let k = k.clone().into_descriptor_public_key();
+        if !keys.contains(&k) {
+            keys.push(k);
+        }
+        true
+    });
+    let mut a = Assets::new();
+    for (i, k) in keys.iter().enumerate() {
+        if i < 16 && mask & (1 << i) != 0 {
+            a = a.add(k.clone());
+        }
+    }
+    if flags & 1 != 0 {
+        macro_rules! hashes {
+            ($ms:expr) => {
+                for n in $ms.iter() {
+                    match &n.node {
+                        Terminal::Sha256(h) => a = a.add(*h),
+                        Terminal::Hash256(h) => a = a.add(*h),
+                        Terminal::Ripemd160(h) => a = a.add(*h),
+                        Terminal::Hash160(h) => a = a.add(*h),
+                        _ => {}
+                    }
+                }
+            };
+        }
+        match &desc {
+            Descriptor::Bare(x) => hashes!(x.as_inner()),
+            Descriptor::Wsh(x) => hashes!(x.as_inner()),
+            Descriptor::Sh(x) => match x.as_inner() {
+                miniscript::descriptor::ShInner::Ms(ms) => hashes!(ms),
+                miniscript::descriptor::ShInner::Wsh(w) => hashes!(w.as_inner()),
+                _ => {}
+            },
+            Descriptor::Tr(t) => {
+                for leaf in t.leaves() {
+                    hashes!(leaf.miniscript())
+                }
+            }
+            _ => {}
+        }
+    }
+    if flags & 2 != 0 {
+        a = a.after(bitcoin::absolute::LockTime::from_consensus(500_000_100));
+        if let Ok(l) = bitcoin::relative::LockTime::from_consensus(0x400010) {
+            a = a.older(l);
+        }
+    }
+    if flags & 4 != 0 {
+        a = a.after(bitcoin::absolute::LockTime::from_consensus(100));
+        if let Ok(l) = bitcoin::relative::LockTime::from_consensus(16) {
+            a = a.older(l);
+        }
+    }
+    for mall in [false, true] {
+        let r = if mall { desc.clone().into_plan_mall(&a) } else { desc.clone().into_plan(&a) };
+        if let Ok(p) = r {
+            let _ = p.witness_size();
+            let _ = p.scriptsig_size();
+            let _ = p.satisfaction_weight();
+            let _ = p.witness_template().len();
+            let _ = p.witness_version();
+            let mut inp = bitcoin::psbt::Input::default();
+            p.update_psbt_input(&mut inp);
+        }
+    }
+}
+
 pub fn probe_main(path: &str, which: Option<usize>) -> i32 {
     let s = std::fs::read_to_string(path).unwrap();
     let s = s.trim_end_matches('\n');
@@ -325,6 +411,7 @@ pub fn worker_main() -> i32 {
             "int" => run_interp(&bytes),
             "psbt" => run_psbt(&bytes),
             "plan" => run_plan(&bytes),
+            "plan2" => run_plan_shapes(&bytes),
             // controls of the containment itself (never generated as a case)
             "ctl-spin" => loop {
                 std::hint::black_box(bytes.len());
@@ -1193,6 +1280,35 @@ fn gen_plan() -> Vec<Case> {
     out
 }
 
+/// The planner over descriptor SHAPES: the shared families (wide thresholds, macro fragments in
+/// contexts, tie-break and lock families) x asset sets {all keys, all but each of the first four, none}
+/// x {all preimages, none} x {locks in time units, in blocks, none}.
+fn gen_plan_shapes(tier: Tier) -> Vec<Case> {
+    let n = tier.pick(3, 4);
+    let u = crate::sat::universe(n, n, n, Alphabet::Small);
+    let models = crate::sat::descriptor_models_ctx(&u, n, n, n, n, 0, 2);
+    let mut out = vec![];
+    for d in models {
+        let c = match crate::sat::prepare(&d, KeyForm::Compressed) {
+            Ok(c) => c,
+            Err(_) => continue,
+        };
+        let nk = c.keys.len().min(16);
+        let all: u16 = if nk == 16 { 0xffff } else { (1u16 << nk) - 1 };
+        let mut masks = vec![all, 0];
+        for i in 0..nk.min(4) {
+            masks.push(all & !(1 << i));
+        }
+        let ds = c.desc.to_string();
+        for m in masks {
+            for flags in [1u8 | 2, 1 | 4, 1, 2, 0] {
+                out.push(Case { kind: "plan2", payload: join_fields(&[ds.clone().into_bytes(), vec![(m & 0xff) as u8, (m >> 8) as u8, flags]]), budget_ms: 3000, origin: "planner-shapes" });
+            }
+        }
+    }
+    out
+}
+
 pub fn run(tier: Tier) -> i32 {
     let rep = Report::new("C11", tier);
     let (short_len, tok_len, edit_nodes, script_len, script_nodes) = tier.pick((3, 3, 3, 2, 3), (4, 4, 4, 3, 4));
@@ -1211,6 +1327,7 @@ pub fn run(tier: Tier) -> i32 {
     groups.push(("interpreter-terms", gen_interp_terms(it_nodes, it_len)));
     groups.push(("psbt", gen_psbt()));
     groups.push(("planner", gen_plan()));
+    groups.push(("planner-shapes", gen_plan_shapes(tier)));
     // positive controls of the containment: a spinning input is reported from its CPU time, a normal
     // and a panicking input are answered; anything else is a machinery failure, not a verdict
     {
